@@ -1353,6 +1353,29 @@ def run(tier, replay=None):
         chains = gen_steps(r, n_chains, n_steps, ploidy, len(pool))
         burns = list(range(0, n_steps + 1))
         run_asm_trace(chk, drv, r, chains, pool, ploidy, n_base, burns, "random", GenotypeMultiTrace)
+    # wide loci (more than 32 / 64 variable positions, up to five symbols per position): haplotypes that differ in the leading
+    # columns only, or in the last column only, still are different haplotypes and one unordered genotype is one state
+    for i in range({"warm": 1, "quick": 12, "thorough": 80}[tier]):
+        n_chains, n_steps, ploidy = gen_shape(r, tier)
+        n_steps = min(n_steps, 8)
+        n_base, n_nucl = r.choice([33, 40, 64, 65, 70, 130]), r.choice([2, 3, 5])
+        base = [r.randrange(n_nucl) for _ in range(n_base)]
+        pool = [tuple(base)]
+        for _ in range(r.randint(2, 4)):
+            h = list(base)
+            if r.random() < 0.7:
+                for j in r.sample(range(0, n_base - 32), min(n_base - 32, r.randint(1, 2))):       # leading columns only
+                    h[j] = (h[j] + r.randint(1, n_nucl - 1)) % n_nucl
+            else:
+                h[-1] = (h[-1] + r.randint(1, n_nucl - 1)) % n_nucl              # last column only
+            if tuple(h) not in pool:
+                pool.append(tuple(h))
+        if len(pool) < 2:
+            continue
+        chains = gen_steps(r, n_chains, n_steps, ploidy, len(pool))[:n_chains]
+        chains = [ch[:n_steps] for ch in chains]
+        chk.count("assemble:wide-locus")
+        run_asm_trace(chk, drv, r, chains, pool, ploidy, n_base, [0, n_steps // 2], "wide", GenotypeMultiTrace)
     # structured supports: both chain orders, thresholds 0.6 (all chains qualify)
     pool = [(0, 0, 0), (0, 0, 1), (0, 1, 0), (0, 1, 1), (1, 0, 0), (1, 0, 1), (1, 1, 0), (1, 1, 1), (2, 0, 0), (2, 0, 1), (2, 1, 0), (2, 1, 1)]
     for ploidy in ((2, 4) if tier != "thorough" else (2, 3, 4, 6)):
